@@ -1404,7 +1404,7 @@ func TestIsoChild(t *testing.T) {
 	if os.Getenv(isoEnv) == "" {
 		t.Skip("only run as a child of TestProp / TestReplay")
 	}
-	debug.SetMaxStack(8 << 20) // depth 2000 needs ~2 MB; an unbounded recursion ends within ~30 ms
+	debug.SetMaxStack(256 << 20) // the output sink may legitimately recurse 100000 deep (values that unwrap to themselves end in an error there: ~40 MB); an unbounded recursion still ends within a second
 	in := bufio.NewReaderSize(os.Stdin, 1<<20)
 	out := bufio.NewWriter(os.Stdout)
 	for {
@@ -2829,7 +2829,7 @@ func setup(t *testing.T) *vk.Run {
 		"a panic inside the parser is C03's subject; such a template is counted as not parsing",
 		"the context always holds partialFeeder (serves partials \"p\" and \"abc\")",
 		"values whose own String / HTML / Interface method panics when the output tag calls it (a method promoted through a nil embedded pointer or interface, reflect.Value.Interface on the zero Value) are part of the pool: the Go runtime raises these panics at the call the engine makes, not application code",
-		"a case that mentions a value that contains itself is rendered in a child process (TestIsoChild, 8 MB stack limit); a child that dies is a failure of the class 'fatal error: stack overflow' at the innermost plush frame of the runtime's report")
+		"a case that mentions a value that contains itself is rendered in a child process (TestIsoChild, 256 MB stack limit); a child that dies is a failure of the class 'fatal error: stack overflow' at the innermost plush frame of the runtime's report")
 	r.Replayer("case", func(raw json.RawMessage) *vk.Fail {
 		var c Case
 		if f := vk.Decode(raw, &c); f != nil {
